@@ -11,6 +11,9 @@ CLAIMS = {
  "C19": dict(ref="7/C19",
    text="Proof (Coq): length-prefix round trip for all 16-bit lengths; pkt_line frames are well-formed (<= 65520, 4 hex digits) or refused exactly above 65516 bytes; pkt_seq/read_pkt_seq round trip for every payload sequence incl. empty payloads and any trailing bytes; ReceivableProtocol.read and read_pkt_line are functions of the remaining stream for every recv schedule; PktLineParser delivers the same events for every fragmentation; side-band split/demux round trip; buffered writer = concatenation. Correspondence: model vs dulwich.protocol on all 65536 prefixes + non-hex alphabet, every schedule/partition of short streams, boundary sizes. Partial: capability/ref-line round trip is checked on the implementation only (no theorem).",
    note="Nine theorems closed under the global context. An independent 3-line encoder in the harness builds input streams."),
+ "C20": dict(ref="7/C20",
+   text="Proof (Coq): for every byte string v the bytes dulwich writes for v after 'key =' are read back as v by dulwich's _parse_string and by git's parse_value (transcribed from config.c 2.39 incl. CRLF folding and whitespace-to-space rule); every subsection name the writer accepts is read back unchanged. Correspondence: writer and both readers vs dulwich and the git binary, exhaustive over the quantifier's 11-symbol alphabet to length 4/5 plus VT/FF/0x80 mixes and random values; dulwich reads files git wrote. Partial: whole-file behaviour (section headers, key case rules, multi-value order, set/add sequences) is checked on the implementation and against git config --list, without a theorem.",
+   note="Three theorems closed under the global context. git 2.39.5 is the reference reader/writer; its parse_value is transcribed by hand and validated against the binary on every run."),
 }
 props = [json.loads(l) for l in open(os.path.join(V, "properties.jsonl"))]
 base = json.load(open("/root/.vp/BASELINE.json"))
